@@ -47,3 +47,10 @@ check(
     "The matrix/tf-idf computation is scikit-learn's and is reached only through the stated reduction (sequence + sorted vocabulary); counterexamples are replayed end to end on real vectorizers. Default tokenizer only.",
     "DESIGN.md 3.C14",
 )
+check(
+    "C01",
+    "bounded symbolic execution (SX, z3 LIA) of the hand-written get_params/set_params code with symbolic parameter values and a symbolic (realised) choice of the key being set; real sklearn.base.clone; concrete-mode replay of the same scenario",
+    "For SkBase, SkBaseTransformLearner (5 method options), SkBaseTransformStacking (1..13 members, wrapped and unwrapped), ClassifierAfterKMeans and ApproximateNMFPredictor: get_params reports the configuration; for EVERY advertised key and every integer value, set_params returns the estimator, changes exactly that key (nested/indexed keys included) and transform follows; set_params(**other.get_params(deep=True)) gives equal parameters and identical outputs; clone gives distinct unfitted objects with equal parameters and outputs.",
+    "scikit-learn's generic BaseEstimator protocol is trusted; inner models are parameter-holding look-alikes with polynomial outputs. Estimators that inherit BaseEstimator's protocol unchanged are outside this check. Two interface-level defects (ANMF keyword sets, clone of ClassifierAfterKMeans with a non-default estimator) are listed known findings.",
+    "DESIGN.md 3.C01",
+)
